@@ -129,6 +129,12 @@ CURATED_TEXT = {
 'ret_after_rule': "token A B C; start s; s: x*; x: y & B; y: A;",
 'ret_in_choice_after_token': "token A B C D E; start s; s: x E; x: (A & B D / A E) C;",
 'ret_in_loop_body': "token A B C; start s; s: x C; x: A (B & A)*;",
+'pred_loop_body': "token A B C D; start s; s: x D; x: (?1 A B | C)*;",
+'pred_loop_call': "token A B C D; start s; s: y* D; y: ?1 A B | C;",
+'pred_loop_call_two': "token A B C D; start s; s: y* D; y: ?1 A B | ?2 C A;",
+'pred_plus_tail': "token A B C D; start s; s: (D y)+ C; y: ?1 A B | C;",
+'pred_opt_follow': "token A B C D; start s; s: [y] A D; y: ?1 A B | C;",
+'pred_loop_nested': "token A B C D; start s; s: (y D)* C; y: (?1 A | B)* ;",
 'unused_rule': "token A B; start s; s: A; u: B u | A;",
 'unused_rule_referencing': "token A B C; start s; s: A x; x: B; u: x C;",
 'pred_twice': "token A B C; start s; s: (?1 A | B) (?1 A | C);",
@@ -305,6 +311,9 @@ PRODUCT_CONTEXTS = {
     'prattop': 's: e E; e: e G {F} e | A;',
     'part': 'part x; s: E x E; x: A {F} D;',
     'twocalls': 's: x E x; x: A {F} D;',
+    'loopbody': 's: x E; x: ({F})* G;',            # the construct alone is the loop body: its FOLLOW contains its own FIRST
+    'loopcall': 's: y* E; y: {F};',
+    'plustail': 's: x E; x: (A {F})+ G;',
 }
 PRODUCT_FEATURES = {
     'tok': ('B', ''), 'opt': ('[B]', ''), 'star': ('B*', ''), 'plus': ('B+', ''), 'nested': ('[B C*]', ''), 'alt': ('(B | C)', ''),
@@ -312,6 +321,7 @@ PRODUCT_FEATURES = {
     'createopt': ('<1 B [C 1>mk]', ''), 'createloop': ('<1 B (C 1>mk)*', ''), 'whole': ('[B >]', ''), 'action': ('#1 B #2', ''),
     'assert': ('!1 B', ''), 'ret': ('& B', ''), 'predopt': ('[?1 B]', ''), 'predstar': ('(?1 B)*', ''), 'ptrue': ('[?t B]', ''),
     'renameback': ('B @rn [C @x]', ''), 'commitalt': ('(B ~ | C)', ''), 'commit': ('B ~ C', ''), 'createouter': ('<1 B [C 1>mk] [B 1>mk2]', ''),
+    'createanon': ('<1 B [C 1>]', ''), 'createanonloop': ('<1 B (C 1>)*', ''), 'predalt': ('(?1 B C | C)', ''), 'predalt2': ('(?1 B | ?2 C B)', ''),
     'call': ('y', 'y: B [C];'), 'callelided': ('z', 'z^: B | C;'), 'callnullable': ('w', 'w: [B] C*;'),
 }
 def product_family():
@@ -322,6 +332,35 @@ def product_family():
             try: g = parse_simple(txt, name=f'px_{cn}_{fn}')
             except SyntaxError: continue
             g.meta['family'] = 'product'; out.append(g)
+    return out
+
+# ---------------------------------------------------------------- feature pairs
+NODE_FEATURES = ('rename', 'renameopt', 'renameback', 'create', 'createopt', 'createloop', 'createanon', 'whole', 'action', 'callelided', 'ret')
+def pair_family(all_pairs=False, seed=0):
+    """two constructs one after the other in one rule.  Pairs of node-shaping constructs (renames, creations with and without a
+    name, whole-rule creation, elided callee, return) are always included: they share per-rule state in the emitted code
+    (node_kind variable, markers, elision flag).  The remaining pairs are sampled (a twelfth per seed) unless all_pairs."""
+    out = []
+    names = list(PRODUCT_FEATURES)
+    k = 0
+    for f1 in names:
+        for f2 in names:
+            node_pair = f1 in NODE_FEATURES and f2 in NODE_FEATURES
+            k += 1
+            if not node_pair and not all_pairs and (k + seed) % 12: continue
+            s1, e1 = PRODUCT_FEATURES[f1]; s2, e2 = PRODUCT_FEATURES[f2]
+            # the second copy uses other tokens / names so that the two constructs do not collide
+            s2 = s2.replace('B', 'H').replace('C', 'K').replace('<1', '<2').replace('1>', '2>').replace('@rn', '@rm').replace('@x', '@xx').replace('mk', 'mq').replace('#1', '#3').replace('#2', '#4').replace('?1', '?3').replace('?2', '?4').replace('!1', '!2')
+            e2 = e2.replace('B', 'H').replace('C', 'K').replace('y:', 'yy:').replace('z^:', 'zz^:').replace('w:', 'ww:')
+            s2 = {'y': 'yy', 'z': 'zz', 'w': 'ww'}.get(s2, s2)
+            for cn, ctx in (('seq', 's: x E; x: A {F1} {F2} D;'), ('elided', 's: x E; x^: A {F1} {F2} D;')):
+                if cn == 'elided' and (not node_pair or (k + seed) % 2): continue
+                body = f'{ctx.replace("{F1}", s1).replace("{F2}", s2)} {e1} {e2}'
+                txt = 'token ' + ' '.join(t for t in 'ABCDEGHK' if re.search(r'\b' + t + r'\b', body)) + f'; start s; {body}'
+                try: g = parse_simple(txt, name=f'pair_{cn}_{f1}_{f2}')
+                except SyntaxError: continue
+                g.meta['family'] = 'pairs'; g.meta['bound_delta'] = -1; g.meta['deep_sentences'] = 4
+                out.append(g)
     return out
 
 # ---------------------------------------------------------------- zero-progress abandonment family
